@@ -22,7 +22,7 @@ struct qsv_ghost qsv_g;
 #define NSMAX 3
 #endif
 #define NRMAX 4
-int g_newrows_calls, g_addcol_calls, g_fail_at, g_freed_p2;
+int g_newrows_calls, g_addcol_calls, g_fail_at, g_freed_p2, g_callee_failed, g_uname_called, g_row_named_obj;
 mpq_QSdata *g_p2;
 /* recorded arguments */
 const mpq_t *g_nr_rhs, *g_nr_range; char *g_nr_sense; const char **g_nr_names; int g_nr_num; void *g_nr_lp;
@@ -32,10 +32,12 @@ const char *g_ac_name[NSMAX]; void *g_ac_lp[NSMAX], *g_ac_B[NSMAX];
 static int rv_or_fail(const char *nm)
 {
 #ifdef QSV_CBMC
-	return nondet_bool() ? 0 : 1;
+	int r = nondet_bool() ? 0 : 1;
 #else
-	return (int) qsv_in(nm);
+	int r = (int) qsv_in(nm);
 #endif
+	if (r) g_callee_failed = 1;
+	return r;
 }
 mpq_QSdata *mpq_QScreate_prob(const char *name, int objsense)
 {
@@ -74,9 +76,11 @@ int mpq_ILLlib_addcol(mpq_lpinfo *lp, mpq_ILLlp_basis *B, int cnt, int *ind, mpq
 	return rv_or_fail("addcol_fails");
 }
 char *ILLutil_str(const char *s) { char *r = qsv_alloc(1); r[0] = 0; return s ? r : 0; }
-int ILLsymboltab_uname(ILLsymboltab *h, char name[ILL_namebufsize], const char *try_prefix1, const char *try_prefix2) { return rv_or_fail("uname_fails"); }
+/* finite-map view of the row-name table: the default objective name "obj" collides iff a row is called "obj";
+ * ILLsymboltab_uname makes a name unique, ILLsymboltab_register reports a collision through *existed */
+int ILLsymboltab_uname(ILLsymboltab *h, char name[ILL_namebufsize], const char *try_prefix1, const char *try_prefix2) { g_uname_called = 1; return rv_or_fail("uname_fails"); }
 int ILLsymboltab_create(ILLsymboltab *h, int init_size) { h->tablesize = 1; return 0; }
-int ILLsymboltab_register(ILLsymboltab *h, const char *s, int itemindex, int *the_index, int *existed) { *the_index = 0; *existed = rv_or_fail("obj_name_exists"); return rv_or_fail("register_fails"); }
+int ILLsymboltab_register(ILLsymboltab *h, const char *s, int itemindex, int *the_index, int *existed) { *the_index = 0; *existed = (g_row_named_obj && !g_uname_called); return rv_or_fail("register_fails"); }
 void ILLstring_reporter_copy(qsstring_reporter *dest, qsstring_reporter *src) { }
 void mpq_QSfree_prob(mpq_QSdata *p) { if (p) g_freed_p2 = 1; }
 
@@ -123,6 +127,7 @@ void harness(void)
 	qsv_setnum(pr->htrigger, qsv_nondet_payload()); pr->hineff = nondet_int(); pr->init = nondet_char();
 	pr->pdinfo.ninit = nondet_int(); pr->ddinfo.ninit = nondet_int();
 	prs = *pr;
+	{ IN_BOOL(row_named_obj); g_row_named_obj = row_named_obj && !has_objname; }	/* a row may carry the default objective name */
 
 	p2 = mpq_QScopy_prob(p, 0);
 
@@ -164,6 +169,7 @@ void harness(void)
 		ASSERT(!g_freed_p2, "C16: a returned copy has not been freed");
 	} else {
 		ASSERT(g_p2 == 0 || g_freed_p2, "C18: a failed copy is released");
+		ASSERT(g_callee_failed, "C16 faithful: copying fails only if a library callee failed (every problem can be copied, whatever its row names)");
 	}
 	COVER_MUST(p2 != 0 && nstruct == NSMAX, "copy_ok");
 	REACH_END();
